@@ -1,0 +1,52 @@
+// Copyright 2020-2025 Buf Technologies, Inc.
+//
+// Licensed under the Apache License, Version 2.0 (the "License");
+// you may not use this file except in compliance with the License.
+// You may obtain a copy of the License at
+//
+//      http://www.apache.org/licenses/LICENSE-2.0
+//
+// Unless required by applicable law or agreed to in writing, software
+// distributed under the License is distributed on an "AS IS" BASIS,
+// WITHOUT WARRANTIES OR CONDITIONS OF ANY KIND, either express or implied.
+// See the License for the specific language governing permissions and
+// limitations under the License.
+
+//go:build verif
+
+package bufcheckserverhandle
+
+// Contracts for the gocv verifier (see /verif/DESIGN.md). Comment-only.
+//
+//@ trusted pure interface bufprotosource.File
+//@ trusted pure interface bufprotosource.Location
+// The annotation sink: one annotation per call, at `location` (or, without a location, for file `inputFileName`).
+//@ trusted func (bufcheckserverutil.ResponseWriter) AddProtosourceAnnotation(location, againstLocation, inputFileName, format, args)
+//@   modifies ghost.annCount, ghost.annLocs, ghost.annFiles
+//@   ensures ghost.annCount == old(ghost.annCount) + 1
+//@   ensures ghost.annLocs == add(old(ghost.annLocs), location)
+//@   ensures ghost.annFiles == add(old(ghost.annFiles), inputFileName)
+//
+//@ pure func (s bufprotosource.Syntax) String() (r)
+//
+// C03/C04: a tracked file value is reported exactly when it changed, at the option's location.
+//@ func checkFileSameValue(responseWriter, previousValue, value, file, location, previousLocation, name) (err)
+//@   property C03 C04
+//@   modifies ghost.annCount, ghost.annLocs, ghost.annFiles
+//@   ensures err == nil
+//@   ensures changed-reported {C03}: previousValue != value ==> ghost.annCount == old(ghost.annCount) + 1 && location in ghost.annLocs && file.Path() in ghost.annFiles
+//@   ensures same-silent {C04}: previousValue == value ==> ghost.annCount == old(ghost.annCount)
+//
+//@ func handleBreakingFileSameSyntax(responseWriter, request, file, previousFile) (err)
+//@   property C03 C04
+//@   modifies ghost.annCount, ghost.annLocs, ghost.annFiles
+//@   ensures err == nil
+//@   ensures changed-reported {C03}: ite(previousFile.Syntax() == bufprotosource.SyntaxUnspecified, bufprotosource.SyntaxProto2, previousFile.Syntax()).String() != ite(file.Syntax() == bufprotosource.SyntaxUnspecified, bufprotosource.SyntaxProto2, file.Syntax()).String() ==> ghost.annCount == old(ghost.annCount) + 1 && file.SyntaxLocation() in ghost.annLocs
+//@   ensures same-silent {C04}: ite(previousFile.Syntax() == bufprotosource.SyntaxUnspecified, bufprotosource.SyntaxProto2, previousFile.Syntax()).String() == ite(file.Syntax() == bufprotosource.SyntaxUnspecified, bufprotosource.SyntaxProto2, file.Syntax()).String() ==> ghost.annCount == old(ghost.annCount)
+//
+//@ func handleBreakingFileSamePackage(responseWriter, request, file, previousFile) (err)
+//@   property C03 C04
+//@   modifies ghost.annCount, ghost.annLocs, ghost.annFiles
+//@   ensures err == nil
+//@   ensures changed-reported {C03}: previousFile.Package() != file.Package() ==> ghost.annCount == old(ghost.annCount) + 1 && file.PackageLocation() in ghost.annLocs
+//@   ensures same-silent {C04}: previousFile.Package() == file.Package() ==> ghost.annCount == old(ghost.annCount)
